@@ -32,13 +32,30 @@ def run(model, rep, tier):
     ret = [n for n in walk_local(fn) if isinstance(n, ast.Return) and isinstance(n.value, ast.Dict)]
     if len(ret) != 1:
         raise AnalysisError('maketracerpreene: dictionary return not found')
-    keys = []
+    # the array behind each key is found by data flow (normal form: an array that is only allocated is already inlined in
+    # the dictionary; one that is filled afterwards is a local bound once to its allocation) -- never by the local's name
+    allocs = {}
+    for n in fn.body:
+        if isinstance(n, ast.Assign) and len(n.targets) == 1 and isinstance(n.targets[0], ast.Name) and isinstance(n.value, ast.Call):
+            allocs.setdefault(n.targets[0].id, []).append(n)
+    origin, local_of, keys = {}, {}, []
     for k, v in zip(ret[0].value.keys, ret[0].value.values):
         kk = k.value if isinstance(k, ast.Constant) else None
         keys.append(kk)
-        ok = kk in params and unparse(v) == kk
+        if isinstance(v, ast.Name) and len(allocs.get(v.id, [])) == 1:
+            org = allocs[v.id][0].value
+            local_of[kk] = v.id
+        elif isinstance(v, ast.Call):
+            org = v
+        else:
+            org = None
+        origin[kk] = org
+        shared = [k2 for k2 in local_of if k2 != kk and kk in local_of and local_of[k2] == local_of[kk]]
+        ok = kk in params and org is not None and not shared
         rep.ob('keys-are-parameters', mod, v, "maketracerpreene returns {'%s': %s}" % (kk, unparse(v)), ok,
-               '' if ok else 'key is not a parameter of preene2betafree or carries another array', engine='tables')
+               '' if ok else ('key is not a parameter of preene2betafree' if kk not in params else
+                              'key carries the same array as %s' % shared if shared else 'array behind the key has no unique allocation'),
+               engine='tables')
     own = {a.arg for a in fn.args.args[1:]}
     need = params - {'kT'} - own - {'preV', 'eneV'}
     ok = set(keys) == need
@@ -49,27 +66,26 @@ def run(model, rep, tier):
             'preSV': ('ones', 'self.thermo.Nstars'), 'eneSV': ('zeros', 'self.thermo.Nstars'),
             'preT1': ('ones', 'len(self.om1_jn)'), 'eneT1': ('zeros', 'len(self.om1_jn)'),
             'preT2': ('ones', 'len(self.om2_jn)'), 'eneT2': ('zeros', 'len(self.om2_jn)')}
-    allocs = {}
-    for n in fn.body:
-        if isinstance(n, ast.Assign) and isinstance(n.targets[0], ast.Name) and isinstance(n.value, ast.Call):
-            allocs[n.targets[0].id] = n
     for name, (ctor, size) in want.items():
-        n = allocs.get(name)
-        ok = n is not None and (dotted(n.value.func) or '').split('.')[-1] == ctor and n.value.args and unparse(n.value.args[0]) == size
-        rep.ob('neutral-solute', mod, n or fn, '%s = np.%s(%s)' % (name, ctor, size), ok,
+        n = origin.get(name)
+        ok = n is not None and (dotted(n.func) or '').split('.')[-1] == ctor and bool(n.args) and unparse(n.args[0]) == size
+        rep.ob('neutral-solute', mod, n or fn, "'%s' <- np.%s(%s)" % (name, ctor, size), ok,
                '' if ok else 'default is not the neutral element / has another size: %s' % (unparse(n) if n is not None else 'missing'),
                engine='tables')
     # solute arrays are never written afterwards
+    solute_locals = {local_of[k] for k in ('preS', 'eneS', 'preSV', 'eneSV') if k in local_of}
+    key_of = {v: k for k, v in local_of.items()}
     for n in walk_local(fn):
         if isinstance(n, (ast.Assign, ast.AugAssign)):
             for t, v in (exchange.split_assign(n) if isinstance(n, ast.Assign) else [(n.target, n.value)]):
                 root = t
                 while isinstance(root, ast.Subscript):
                     root = root.value
-                if isinstance(root, ast.Name) and root.id in ('preS', 'eneS', 'preSV', 'eneSV') and isinstance(t, ast.Subscript):
+                if isinstance(root, ast.Name) and root.id in solute_locals and (isinstance(t, ast.Subscript) or isinstance(n, ast.AugAssign)):
                     rep.ob('neutral-solute', mod, n, unparse(n), False, 'the neutral solute / interaction data are modified', engine='tables')
-    # host copy loops
+    # host copy loops (normal form: ``for j, jt in enumerate(self.omK_jt)``; zip(itertools.count(), ...) is rewritten to it)
     nloops = 0
+    filled = set()
     for lp in [x for x in fn.body if isinstance(x, ast.For)]:
         it = unparse(lp.iter)
         fams = {f for k, f in families.TYPES.items() if k in it}
@@ -80,10 +96,10 @@ def run(model, rep, tier):
         nloops += 1
         # targets: j counts positions, jt is the recorded omega0 type
         tn = [unparse(t) for t in lp.target.elts] if isinstance(lp.target, ast.Tuple) else []
-        an = [unparse(a) for a in lp.iter.args] if isinstance(lp.iter, ast.Call) else []
-        ok = len(tn) == 2 and len(an) == 2 and an[0] in ('itertools.count()',) and an[1] in families.TYPES
-        rep.ob('host-copy', mod, lp, '%s loop: (%s) over (%s)' % (fam, ', '.join(tn), ', '.join(an)), ok,
-               '' if ok else 'position index and jump type are not drawn from (count, omegaK_jt)', engine='tables')
+        ok = len(tn) == 2 and isinstance(lp.iter, ast.Call) and unparse(lp.iter.func) == 'enumerate' and len(lp.iter.args) == 1 \
+            and not lp.iter.keywords and unparse(lp.iter.args[0]) in families.TYPES
+        rep.ob('host-copy', mod, lp, '%s loop: (%s) over %s' % (fam, ', '.join(tn), it), ok,
+               '' if ok else 'position index and jump type are not drawn from enumerate(omegaK_jt)', engine='tables')
         if not ok:
             continue
         j, jt = tn
@@ -91,12 +107,18 @@ def run(model, rep, tier):
             for t, v in exchange.split_assign(st):
                 root = t.value if isinstance(t, ast.Subscript) else t
                 af = _alloc_family(fn, unparse(root))
-                kind_t = unparse(root)[:3]
-                okc = isinstance(t, ast.Subscript) and unparse(t.slice) == j and isinstance(v, ast.Subscript) and unparse(v.slice) == jt \
-                    and unparse(v.value) == kind_t + 'T0' and af == fam
-                rep.ob('host-copy', mod, st, '%s: %s <- %s' % (fam, unparse(t), unparse(v)), okc,
-                       '' if okc else 'transition state %s does not receive the host %sT0 of its own jump type (array family %s)'
-                       % (unparse(t), kind_t, af), engine='tables')
+                key = key_of.get(unparse(root))
+                kind_t = key[:3] if key else None
+                okc = key is not None and isinstance(t, ast.Subscript) and unparse(t.slice) == j and isinstance(v, ast.Subscript) \
+                    and unparse(v.slice) == jt and unparse(v.value) == kind_t + 'T0' and af == fam and key == kind_t + 'T' + fam[-1]
+                if okc:
+                    filled.add(key)
+                rep.ob('host-copy', mod, st, "%s: %s (returned as '%s') <- %s" % (fam, unparse(t), key, unparse(v)), okc,
+                       '' if okc else 'transition state %s does not receive the host %sT0 of its own jump type (array family %s, key %s)'
+                       % (unparse(t), kind_t, af, key), engine='tables')
+    missing = {'preT1', 'eneT1', 'preT2', 'eneT2'} - filled
+    rep.ob('host-copy', mod, fn, 'every omega1 / omega2 transition array is filled from the host data: %s' % sorted(filled), not missing,
+           '' if not missing else 'never filled from the omega0 data: %s' % sorted(missing), engine='tables')
     rep.floor('host-copy loops', nloops, 2)
 
 
